@@ -3,6 +3,7 @@ from __future__ import annotations
 
 import ast
 import itertools
+import re
 
 from harness import impl
 from harness.common import rng, short
@@ -28,11 +29,13 @@ def join(seq):
 
 def check_one(src: str, mode: str = "exec", variant: str = "shipped"):
     """None if fine; dict if CPython rejects (SyntaxError) but this parser returns a tree."""
+    cp_err = None
     try:
         ast.parse(src, mode="exec" if mode == "exec" else "eval")
         cp = True
-    except SyntaxError:
+    except SyntaxError as e:
         cp = False
+        cp_err = (type(e).__name__, str(e.msg))
     except (ValueError, RecursionError, MemoryError):
         return {"skip": "cpython-other"}
     o = impl.parse(src, mode, variant=variant)
@@ -44,8 +47,18 @@ def check_one(src: str, mode: str = "exec", variant: str = "shipped"):
     if k in ("err", "tokerr"):
         return {"ok": "both-reject"}
     if k == "tree":
-        return {"kind": "over-accept", "dump": o.get("dump", "")[:300]}
+        return {"kind": "over-accept", "dump": o.get("dump", "")[:300], "cpython": cp_err}
     return {"ok": "other", "k": k, "cls": o.get("cls")}  # C03's business
+
+
+def classify(o):
+    """Known-finding classes, decided from CPython's own diagnosis of the input."""
+    cls, msg = o.get("cpython") or (None, "")
+    if cls == "TabError":
+        return "KF-C02-tab-consistency"
+    if cls == "SyntaxError" and re.fullmatch(r"invalid (decimal|hexadecimal|octal|binary|imaginary) literal", msg or ""):
+        return "KF-C02-number-glued-to-keyword"
+    return None
 
 
 def check_batch(srcs, mode="exec", variant="shipped"):
@@ -104,6 +117,25 @@ def build_inputs(tier):
     for p in progs[: (120 if tier == "quick" else 100000)]:
         for d in mutate.token_deletions(p):
             cases.append(("tokdel", d if d.endswith("\n") else d + "\n"))
+    # systematic single-token duplications, glued neighbours, blanks after a continuation backslash, tab/blank swaps
+    nested = ["if a:\n    if b:\n        c\n        d\n    e\n", "def f():\n\tif x:\n\t\ty\n\t\tz\n", "while a:\n        b\n        c\n",
+              "class A:\n    def f(s):\n        return 1\n    x = 2\n", "for i in x:\n\tpass\n\tpass\n", "try:\n        a\nexcept E:\n        b\n"]
+    conts = ["x = 1 + \\\n    2\n", "if a and \\\n   b:\n    pass\n", "y = (1, \\\n 2)\n", "assert x, \\\n  'm'\n", "from a import b, \\\n c\n"]
+    for p in progs[: (200 if tier == "quick" else 100000)] + nested + conts:
+        for d in mutate.token_duplications(p):
+            cases.append(("tokdup", d if d.endswith("\n") else d + "\n"))
+        for d in mutate.blank_deletions(p):
+            cases.append(("glued", d if d.endswith("\n") else d + "\n"))
+    for p in progs + nested + conts:
+        for d in mutate.continuation_blanks(p):
+            cases.append(("continuation-blank", d))
+        for d in mutate.indentation_swaps(p):
+            cases.append(("indent-swap", d))
+    for p in progs[: (100 if tier == "quick" else 100000)]:
+        for d in mutate.continuation_blanks(mutate.backslash_continuations(p, r)):
+            cases.append(("continuation-blank", d))
+        for d in mutate.indentation_swaps(mutate.tabs(p)) + mutate.indentation_swaps(p.replace("    ", "        ")):
+            cases.append(("indent-swap", d))
     for rc in corpus.regress("C02"):
         cases.insert(0, ("regress", rc["src"]))
     out = []
@@ -145,5 +177,9 @@ def run(rep, tier, pool, variants=("shipped",)):
                     rep.count(kind + ":" + o["ok"])
                     continue
                 rep.case(src, True)
+                fid = classify(o)
+                if fid:
+                    rep.known(fid, f"{short(src, 60)}")
+                    continue
                 rep.violation(f"C02 over-acceptance: CPython rejects, parser returns a tree for {short(src, 80)}", {"property": "C02", "input": src, "mode": "exec", "observed": o, "variant": variant, "oracle": "ast.parse raises SyntaxError"})
     rep.extra["exhaustive_part"] = "all sequences of length<=3 over CORE vocabulary"
